@@ -47,6 +47,7 @@ RULE = (
     "the oracle"
 )
 RULE += " " + 'Added after the seeding rounds: every other SM configuration spells its stops FREEZES; SSC simfiles and charts carry a FREEZES decoy key in every other configuration; the version is written in several spellings of the same number; one BPMS value in three lists is negative.'
+RULE += " " + "Round 6: in every third configuration the TimingData lists are edited in place and the same source is read again: the second object must hold the source's values."
 ASSUMPTIONS = [
     "CPython Fraction and Decimal are the reference for parsing 'beat=value' lists, offsets and DISPLAYBPM numbers",
     "beats in generated lists are multiples of 1/4 written with three decimals (exact decimals on the tick grid; snapping is C14's subject)",
